@@ -20,6 +20,7 @@ import Gzx.Proofs.TotalQR
 import Gzx.Proofs.TotalDM
 import Gzx.Proofs.TotalQRFit
 import Gzx.Proofs.TotalDMTable
+import Gzx.Proofs.TotalOneD
 namespace Gzx.Properties.C06
 open Gzx Gzx.BitSource Gzx.OneDPost
 
@@ -439,5 +440,32 @@ example : (newBitMatrixParser versions ⟨10, 10, #[]⟩).map (·.1.versionNumbe
     .error (.panic "index out of range: bits") := by decide +kernel
 
 end DMDecode
+
+/-! ## UPC/EAN row decoder (model Gzx/Model/OneD.lean, tied to oned/upcean_reader.go by the `c03` suite): first layer -/
+
+section OneDRows
+open Gzx.OneD Gzx.Proofs.TotalOneD
+
+/-- C06 for `upceanReader_findGuardPatternWithCounters` on EVERY row (any length ≥ 0, any pixels), from any
+    offset, white-first or not, for every guard pattern of at least three runs: a range or
+    NotFoundException — the counter shift `counters[2:]` and the variance computation never leave their
+    slices.  (PARTIAL for the row decoders as a whole: `decodeRow` — start-guard search with its quiet-zone
+    loop, `decodeDigit`, the middle/end guards, check digit — is NOT proved total here; it is covered by the
+    C03 correspondence and the C06 row oracle.) -/
+theorem upcean_findGuardPattern_total_partial (row : List Bool) (rowOffset : Nat) (whiteFirst : Bool)
+    (pattern : List Nat) (h3 : 3 ≤ pattern.length) :
+    (∃ r, findGuardPattern row rowOffset whiteFirst pattern = .ok r) ∨
+      findGuardPattern row rowOffset whiteFirst pattern = .error .notFound :=
+  findGuardPattern_nf row rowOffset whiteFirst pattern h3
+
+/-- the guard patterns of the reference tables (start/end, middle, UPC-E end) have 3, 5 and 6 runs -/
+example : 3 ≤ refTables.startEnd.length ∧ 3 ≤ refTables.middle.length ∧ 3 ≤ refTables.upceMiddleEnd.length := by decide
+/-- the hypothesis is needed: a two-run pattern makes `counters[2:]` leave the slice -/
+example : findGuardPattern [true, true, true, true, false, true, false] 0 false [1, 1] =
+    .error (.panic "slice bounds out of range") := by decide
+example : findGuardPattern [false, true, false, true, false] 0 false [1, 1, 1] = .ok (1, 4) := by decide
+example : findGuardPattern [] 7 true [1, 1, 1] = .error .notFound := by decide
+
+end OneDRows
 
 end Gzx.Properties.C06
